@@ -165,7 +165,12 @@ def foreign_synth_decodes(H, cname):
         binds.append((mt, H.int(f"cm.{name}.ch", 0, 255), sl, H.int(f"cm.{name}.par", 0, 0xFFFF)))
     cmid = rw.join([F.enc_cmid(mt.value, ch, sl.value, par) for mt, ch, sl, par in binds]) if binds else None
     chunks = [(b"SSYN", b""), (b"VERS", F.enc_version((2, 1, 2, 1)))] + _module_chunks(d, cls.mtype, False, raws, cmid)
-    positions = sorted({1, 2, len(chunks) // 2, len(chunks) - 1}) if tier == "quick" else list(range(1, len(chunks)))
+    if tier == "quick":
+        positions = sorted({1, 2, len(chunks) // 2, len(chunks) - 1})
+    elif k == len(attached):
+        positions = list(range(1, len(chunks)))  # thorough: every position, for the complete CVAL list
+    else:
+        positions = [len(chunks) // 2]  # thorough: every truncation length, one position each (no product)
     pos = H.choice("unknown_chunk_at", [None] + positions)
     if pos is not None:
         chunks = chunks[:pos] + [(UNKNOWN_ID, H.bytes("junk", 3))] + chunks[pos:]
